@@ -185,6 +185,11 @@ def main(argv):
         c.broken.append("build of repo working tree failed: " + blog[-800:])
         return c.finish(rule="build failed")
     c.proofs()
+    from gen.fallback import shape_note
+    note = shape_note("Src_utf8.v")
+    if note:
+        c.assumptions.append("translator: the shape of the anchored code changed (" + note[:300] + "); the tie of the model to the code rests on the correspondence run below")
+        log("  note: " + note[:300])
     drv, dlog = build_driver("C12")
     impl = hx_bin("hx_utf8")
     tool = repo_bin("remove_invalid_utf8")
